@@ -35,7 +35,9 @@ Alphabet == <<
   [type |-> 32802, vlen |-> 8,  var |-> "fplike"],   \* 17 SOFTWARE whose value reads like a FINGERPRINT attribute
   [type |-> 65280, vlen |-> 24, var |-> "milike"],   \* 18 unknown attribute whose value reads like a MESSAGE-INTEGRITY attribute
   [type |-> 6,     vlen |-> 12, var |-> "hdrlike"],  \* 19 USERNAME whose value reads like attribute headers (type 0x0008 len 0 ...)
-  [type |-> 0,     vlen |-> 1,  var |-> "ord"]       \* 20 reserved type 0x0000
+  [type |-> 0,     vlen |-> 1,  var |-> "ord"],      \* 20 reserved type 0x0000
+  [type |-> 8,     vlen |-> 20, var |-> "tailfp"],   \* 21 MESSAGE-INTEGRITY whose last 8 value bytes read like a FINGERPRINT attribute
+  [type |-> 28,    vlen |-> 32, var |-> "tailfp"]    \* 22 MESSAGE-INTEGRITY-SHA256, likewise (a message may END in these bytes)
 >>
 
 \* header variants: top two bits, cookie, class, method, declared length relative to the real body length
@@ -74,6 +76,7 @@ AttrBytes(a, pre, k) ==
   LET val == IF a.var = "fpok" THEN W32(X2(Crc32(SetLen(pre, Len(pre) + 8 - 20)), FpXor))
              ELSE IF a.var = "fplike" THEN <<128, 40, 0, 4>> \o Pattern(4, k)
              ELSE IF a.var = "milike" THEN <<0, 8, 0, 20>> \o Pattern(20, k)
+             ELSE IF a.var = "tailfp" THEN Pattern(a.vlen - 8, k) \o <<128, 40, 0, 4>> \o Pattern(4, k)
              ELSE IF a.var = "hdrlike" THEN <<0, 8, 0, 0, 0, 28, 0, 0, 128, 40, 0, 0>>
              ELSE Pattern(a.vlen, k)
   IN W16(a.type) \o W16(a.vlen) \o val \o Zeros(Pad4(a.vlen) - a.vlen)
